@@ -49,13 +49,13 @@ CHECKS.update({
    text="Generated models with uniquely tagged linear constraints (range/<=/>=/=) behind nonlinear and logical items are converted under acceptance "
         "tables that keep range rows or turn them into equality+slack; a generated history of 4-12 direct value-presolver calls (solution, basis, IIS, "
         "generic int/dbl, lazy flags; both directions) runs inside the scripted solver. Checked: shapes, variable j <-> delivered variable j, linear "
-        "constraint <-> its row with the range_con.h slack mapping, inbound values on the images, and identical results for every call in a second, "
+        "constraint <-> its row with the range_con.h slack mapping (generic value kinds with signed values and zeros: largest among the non-zero values of row and slack, the rule documented at ValueNode::SetNum), inbound values on the images, and identical results for every call in a second, "
         "differently ordered history.",
    note="nothing is asserted for values of nonlinear/logical constraints; images are found by tag coefficients, not via mp's link graph"),
  "C19": dict(level="exploration", engine="hypothesis", design="3/C19",
-   technique="Hypothesis-generated models x cvt:names modes x .col/.row files (absent, short, CRLF, AMPL-style quoting) x acceptance; name invariants on the recorded ModelAPI calls",
+   technique="Hypothesis-generated models x cvt:names modes x .col/.row files (absent, short, CRLF, AMPL-style quoting) x SOS sets declared by suffixes (.sosno/.ref, .sos/.sosref) x acceptance; name invariants on the recorded ModelAPI calls",
    text="On everything the ModelAPI received: no names unless requested; otherwise every variable/constraint/objective name non-empty, unique per class, "
-        "original variables carry the file or generic name, auxiliary names derive from an original item's name.",
+        "original variables carry the file or generic name, auxiliary names derive from an original item's name or from the label of a suffix-declared SOS set.",
    note="one recorded known finding (derived-name collisions of sibling items) is counted and skipped; 'derived' = has an original name as prefix"),
  "C20": dict(level="exploration", engine="hypothesis", design="3/C20",
    technique="Hypothesis-generated conversions with cvt:writegraph and hostile names; strict JSON parse plus completeness/consistency invariants against the recorded ModelAPI calls",
@@ -73,7 +73,7 @@ CHECKS.update({
  "C07": dict(level="exploration", engine="hypothesis", design="3/C07",
    technique="Hypothesis-generated (model, grid point, single damage far above/below tolerance, check options); two-run protocol with the scripted solver returning the exact forward-evaluated candidate; reference evaluator decides the expected verdict",
    text="The candidate consists of a grid point and the exact values of all expressions; it is left intact or damaged in one way (bound, integrality, "
-        "expression value) by 2^-6 or 2^-40. The 'Tolerance violations' warning and solve code 150 under sol:chk:fail must appear iff the NL model is "
+        "expression value) by 2^-6 or 2^-40, or one integer variable (original or auxiliary) is moved by 2^-24, inside the integrality tolerance, which must not change the verdict. The 'Tolerance violations' warning and solve code 150 under sol:chk:fail must appear iff the NL model is "
         "violated at the point or the damage is far above tolerance.",
    note="accept-all configuration; no objectives; the tolerance band between the two margins is not generated (don't-care)"),
 })
